@@ -189,7 +189,7 @@ struct SSGen {
         // ---- per-element observations ----
         if (on("name")) perNode += o("name", vo("name()") + "|" + vo("local-name()") + "|" + vo("namespace-uri()"));
         if (on("counts")) perNode += o("counts", vo("count(*)") + "," + vo("count(node())") + "," + vo("count(text())") + "," + vo("count(@*)") + "," + vo("count(comment())") + "," + vo("count(processing-instruction())"));
-        if (on("strval")) perNode += o("strval", vo("string-length(.)") + ":" + vo("normalize-space(substring(., 1, 40))"));
+        if (on("strval")) perNode += o("strval", vo("string-length(.)") + ":" + vo("normalize-space(text()[1])") + ":" + vo("string-length(normalize-space(.))"));
         if (on("axes")) perNode += o("axes", vo("count(descendant::*)") + "," + vo("count(following-sibling::*)") + "," + vo("count(following::*)") + "," + vo("count(descendant-or-self::node())"));
         if (on("revaxes")) perNode += o("revaxes", vo("count(ancestor::*)") + "," + vo("count(preceding-sibling::*)") + "," + vo("count(preceding::*)") + "," + vo("ancestor::*[1]/@id") + "," + vo("preceding::*[2]/@id") + "," + vo("preceding-sibling::*[last()]/@id"));
         if (on("pos")) perNode += "<o f=\"pos\" n=\"{@id}\"><xsl:for-each select=\"*\"><xsl:sort select=\"@rk\" data-type=\"number\"/><xsl:value-of select=\"concat(position(),'/',last(),'=',@id,' ')\"/></xsl:for-each></o>";
@@ -278,7 +278,7 @@ struct SSGen {
         s += "<xsl:template match=\"/\"><out total=\"{$G1}\">" + rootBody;
         if (c.useInclude) s += "<o f=\"include\" n=\"/\"><xsl:call-template name=\"incT\"><xsl:with-param name=\"x\" select=\"$G1\"/></xsl:call-template></o>";
         if (c.useImport) s += "<o f=\"import-var\" n=\"/\"><xsl:value-of select=\"$IMPV\"/></o>";
-        if (c.cdataElems) s += "<cd><xsl:value-of select=\"substring(normalize-space(/), 1, 30)\"/></cd>";
+        if (c.cdataElems) s += "<cd><xsl:value-of select=\"normalize-space((//text()[normalize-space()])[1])\"/></cd>";
         if (c.order == "rk") s += "<xsl:apply-templates select=\"//*\" mode=\"obs\"><xsl:sort select=\"@rk\" data-type=\"number\"/></xsl:apply-templates>";
         else if (c.order == "rev") s += "<xsl:apply-templates select=\"//*\" mode=\"obs\"><xsl:sort select=\"position()\" data-type=\"number\" order=\"descending\"/></xsl:apply-templates>";
         else s += "<xsl:apply-templates select=\"//*\" mode=\"obs\"/>";
